@@ -254,6 +254,36 @@ class SeqProperty:
             for rec in generate_records(self, drv, rng, n_hist, stop=lambda: bool(violations) and tier == "quick",
                                         sink=handle_rec):
                 pass
+        # 2b. emulator clauses (C07: a phase shift is a rotation about z; C15: drift correction equals
+        # zero off-detuning) -- numerical, on the implementation only
+        emul_stats = None
+        if prop in ("C07", "C15"):
+            import emul_clauses
+
+            n_em = 24 if tier == "quick" else 400
+            erng = random.Random(f"{prop}-emul-{seed}")
+            emul_stats = dict(cases=0, skipped=0, failed=0)
+            for _ in range(n_em):
+                case = emul_clauses.gen_case(erng, prop)
+                try:
+                    msg = emul_clauses.run_case(case)
+                except Exception as e:  # noqa: BLE001
+                    msg = f"emulation raised {type(e).__name__}: {str(e)[:120]}"
+                emul_stats["cases"] += 1
+                if msg == "skip":
+                    emul_stats["skipped"] += 1
+                    continue
+                if msg:
+                    emul_stats["failed"] += 1
+                    key = dict(clause="emulator", kind=case["kind"])
+                    kf = match_known(prop, key, findings)
+                    if kf is not None:
+                        known_hits[kf["id"]] += 1
+                        continue
+                    violations.append(dict(property=prop, kind="emulator", clause="emulator", message=msg,
+                                           key=key, case=case, device=None, ops=[]))
+                    if tier == "quick":
+                        break
         # 3a. translator tie broken (an obligation over a regenerated table fails): the
         # histories above were the search; without a failing input it is still reported
         if broken_tie and not violations:
@@ -303,6 +333,11 @@ class SeqProperty:
             assumptions=TRUSTED_BASE,
             wall_s=timer.s(), violations=len(violations),
         )
+        if emul_stats is not None:
+            ev["coverage"]["emulator_clause"] = dict(
+                emul_stats, note="C07: two pi/2 pulses separated by a phase shift phi give excitation cos^2(phi/2); "
+                "C15: an EOM sequence with correct_phase_drift ends with the populations of the same pulses played "
+                "with zero off-detuning (QutipEmulator, sampling_rate 1, tolerance 2e-4 scaled with |detuning_off|)")
         if prop == "C03":
             import monitors
             ev["coverage"]["fall_time_hypotheses"] = dict(
@@ -329,6 +364,16 @@ class SeqProperty:
     # ------------------------------------------------------------------
     def replay(self, path: str) -> int:
         item = json.loads(Path(path).read_text())
+        if item.get("kind") == "emulator":
+            import emul_clauses
+
+            msg = emul_clauses.run_case(item["case"])
+            if msg and msg != "skip":
+                print(msg)
+                print(f"VIOLATION property={self.prop} replay={path}")
+                return 1
+            print("replay: property holds on this case")
+            return 0
         drv = Driver()
         res = run_history(drv, item["device"], item["ops"], item.get("exact", True), self.monitors(),
                           stop_on_fail=False)
